@@ -13,11 +13,12 @@ fixed_lines = 1
 per_process = 400   # a faulting script costs a restart of its batch only
 rule = ("scripts = 'n begin', node ops, 'n end' (destroy everything, every byte must come back); "
         "stream 1 (exhaustive small scope): every forest that can be built from <=4 (quick) / <=5 (thorough) nodes by "
-        "'stay root / last child of an earlier node / appended to an earlier top-level list', names from {a,b} "
-        "(patterns abab., aabb., aaaa.), followed by EVERY single op with every operand (positions 0,1,2,-1,-2; "
+        "'stay root / last child of an earlier node / appended to an earlier top-level list', names from {a,b,unnamed} "
+        "(patterns abab, aabb, aaaa, a-a-; 4-node states: the first two, 5-node states: the first), followed by EVERY "
+        "single op with every operand for which the call's precondition can hold (every eighth state: all operands; positions 0,1,2,-1,-2; "
         "by position and by name; after/before/add/insert/unlink/move/clone/clone tree/clone list/clear/destroy/"
         "locate/pos), i.e. histories of length <=5 over <=5 nodes; stream 2: every ordered pair of structural ops on "
-        "the 3-node states; stream 3: random histories (12-40 ops, up to ~60 nodes) biased to valid calls by a "
+        "the 3-node states (names aab; positions 0,1,-1 quick / 0,1,2,-1,-2 thorough); stream 3: random histories (12-40 ops, up to ~60 nodes) biased to valid calls by a "
         "python mirror of the forest, with clones of trees of depth >=2, merges of lists with overlapping names, "
         "clear/destroy of inner nodes; non-trivial = a node with a grandchild existed at some point of the history "
         "(seen in the code's own walk), counted per distinct script")
